@@ -27,6 +27,9 @@ BETWEEN = [
     ['items'],
     ['concat', 'list_2'],
     ['concat', 'self'],
+    ['concat', 'dict_2'],
+    ['intersperse', 'dict_disjoint'],
+    ['key_zip', 'self_map'],
     ['batch', 2, False],
     ['idx', [0, 0, -1]],
     ['copy'],
@@ -150,6 +153,70 @@ def filter_forms(n):
     return count, viols
 
 
+class Flaky:
+    """Raises for the values in `bad`; the harness changes `bad` between two iterations of ONE pipeline object."""
+
+    def __init__(self, exc):
+        self.exc, self.bad = exc, set()
+
+    def __call__(self, v):
+        if v in self.bad:
+            raise self.exc(v)
+        return v
+
+
+def repeated_iterations(nmax):
+    """The same catch object iterated several times while the set of failing examples changes (every pair of
+    subsets), and with a per-epoch reshuffle below it (all rng answers): every iteration yields precisely the
+    examples that do not fail in THAT iteration."""
+    import lazy_dataset
+    from vf import choicemc as CM
+    viols = []
+    count = 0
+    for n in range(1, nmax + 1):
+        subsets_n = [set(c) for r in range(n + 1) for c in itertools.combinations(range(n), r)]
+        for keyed in (True, False):
+            for first, second in itertools.product(subsets_n, repeat=2):
+                count += 1
+                fl = Flaky(lazy_dataset.FilterException)
+                src = {f'k{i}': i for i in range(n)} if keyed else list(range(n))
+                ds = lazy_dataset.new(src).map(fl).catch()
+                got = []
+                for bad in (first, second, first):
+                    fl.bad = bad
+                    try:
+                        got.append(list(ds.items()) if keyed else list(ds))
+                    except Exception as e:      # noqa: BLE001
+                        got.append(f'raises {type(e).__name__}')
+                want = [[(f'k{i}', i) if keyed else i for i in range(n) if i not in bad] for bad in (first, second, first)]
+                if got != want:
+                    viols.append(common.Violation(
+                        'C14', 'catch-depends-on-earlier-iterations',
+                        f'n={n} keyed={keyed} failing sets per iteration {[sorted(first), sorted(second), sorted(first)]}: '
+                        f'got {got}, expected {want}', {'engine': 'repeated', 'n': n}))
+                    break
+    for n in range(1, min(nmax, 3) + 1):
+        for bad in [set(c) for r in range(1, n + 1) for c in itertools.combinations(range(n), r)]:
+            def body(ch, n=n, bad=bad):
+                fl = Flaky(lazy_dataset.FilterException)
+                fl.bad = bad
+                ds = lazy_dataset.new({f'k{i}': i for i in range(n)}).shuffle(True, rng=CM.ChoiceRng(ch)).map(fl).catch()
+                return [list(ds) for _ in range(3)]
+            for choices, epochs in CM.explore(body, cap=200000):
+                count += 1
+                for e, out in enumerate(epochs):
+                    if sorted(out) != [i for i in range(n) if i not in bad]:
+                        viols.append(common.Violation(
+                            'C14', 'catch-over-reshuffle-loses-examples',
+                            f'n={n} failing {sorted(bad)} rng answers {choices}: epoch {e} yields {out}',
+                            {'engine': 'repeated', 'n': n}))
+                        break
+                else:
+                    continue
+                break
+    return count, viols
+
+
 def items_signal():
     """catch(Exception) must not swallow the internal items-not-defined signal: items() over a keyless
     pipeline has to fail loudly instead of yielding nothing."""
@@ -187,6 +254,9 @@ def run(tier):
         cnt += c
         res.violations.extend(v)
     res.violations.extend(items_signal())
+    c2, v2 = repeated_iterations(3 if tier == 'quick' else 4)
+    cnt += c2
+    res.violations.extend(v2)
     seqmc.shortest_first(res)
     res.coverage.update(
         states=total['states'] + cnt, transitions=total['transitions'] + 3 * cnt,
@@ -208,6 +278,10 @@ def replay(data):
         check_program(ex, r['program'], set(r['what']))
         res.violations = [common.Violation.from_json(v) for v in ex.violations]
         res.coverage.update(states=1, transitions=len(r['program']['ops']))
+    elif r.get('engine') == 'repeated':
+        c, v = repeated_iterations(r['n'])
+        res.violations = v
+        res.coverage.update(states=c, transitions=c)
     elif r.get('engine') == 'filter-forms':
         c, v = filter_forms(r['n'])
         res.violations = v
